@@ -41,7 +41,7 @@ type nativeItem struct {
 // runReplays replays counterexamples (natively where the harness allows it, otherwise in the
 // interpreter with every nondet value pinned) and validates witness paths against the native
 // build. Returns the number of native traces that agreed with the interpreter's prediction.
-func runReplays(prop, tier, work, replayDir string, byFn map[string]*merged, order []string) int {
+func runReplays(prop, tier, work, replayDir string, byFn map[string]*merged, order []string, l *loaded) int {
 	maxWit := 6
 	if tier == "thorough" {
 		maxWit = 24
@@ -159,30 +159,17 @@ func runReplays(prop, tier, work, replayDir string, byFn map[string]*merged, ord
 	wg.Wait()
 
 	// interpreter replays with every nondet value pinned
-	if len(interp) > 0 {
+	if len(interp) > 0 && l != nil {
 		var jobs []Job
 		for _, it := range interp {
 			m := byFn[it.fn]
-			jobs = append(jobs, Job{Pkg: m.H.Pkg, Fn: it.fn, ShardN: 1, Pin: &PinFile{Values: it.viol.Pinned, Chooses: it.viol.Chooses}})
+			jobs = append(jobs, Job{Pkg: m.H.Pkg, Fn: it.fn, ShardN: 1, Thorough: tier == "thorough", Pin: &PinFile{Values: it.viol.Pinned, Chooses: it.viol.Chooses}})
 		}
-		jf := filepath.Join(work, "pin-jobs.json")
-		rf := filepath.Join(work, "pin-res.json")
-		jb, _ := json.Marshal(jobs)
-		os.WriteFile(jf, jb, 0o644)
-		self, _ := os.Executable()
-		cmd := exec.Command(self, "run", "-jobs", jf, "-tier", tier, "-out", rf)
-		outb, err := cmd.CombinedOutput()
-		var rs []Result
-		if err == nil {
-			data, rerr := os.ReadFile(rf)
-			if rerr == nil {
-				json.Unmarshal(data, &rs)
-			}
-		}
+		rs := runJobs(l, jobs, 8, nil)
 		for i, it := range interp {
 			m := byFn[it.fn]
 			c := confirmed{V: *it.viol, Path: it.final, How: "interp"}
-			if i < len(rs) && rs[i].Error == "" {
+			if rs[i].Error == "" {
 				if a := rs[i].Asserts[it.viol.Label]; a != nil && a.Violated > 0 {
 					c.OK = true
 				} else {
@@ -190,10 +177,7 @@ func runReplays(prop, tier, work, replayDir string, byFn map[string]*merged, ord
 					c.Detail = "pinned run did not fail the assertion; aborted=" + string(js)
 				}
 			} else {
-				c.Detail = "pinned run failed: " + tail(string(outb), 400)
-				if i < len(rs) {
-					c.Detail += " " + rs[i].Error
-				}
+				c.Detail = "pinned run failed: " + rs[i].Error
 			}
 			m.Confirmed = append(m.Confirmed, c)
 		}
@@ -330,7 +314,7 @@ func cmdReplay(args []string) int {
 		fmt.Fprintln(os.Stderr, err)
 		return 2
 	}
-	r := runJob(l, Job{Pkg: h.Pkg, Fn: h.Fn, ShardN: 1, Pin: rf.Pin}, rf.Tier == "thorough", nil, true)
+	r := runJobs(l, []Job{{Pkg: h.Pkg, Fn: h.Fn, ShardN: 1, Pin: rf.Pin, Thorough: rf.Tier == "thorough", Verbose: true}}, 1, nil)[0]
 	printResult(r)
 	if a := r.Asserts[rf.Label]; a != nil && a.Violated > 0 {
 		fmt.Printf("REPRODUCED (interpreter, all nondet values pinned) assertion %s fails\n", rf.Label)
